@@ -874,12 +874,25 @@ fn strat(mode: u8, side: u8, maxn: usize) -> impl Strategy<Value = Case> {
 
 /// strictly increasing abscissae perturbed so that at least one strict descent exists
 fn strat_unsorted(maxn: usize) -> impl Strategy<Value = Case> {
-    (gparams(maxn), 0u8..6, 1u8..3).prop_map(|(p, pert, mode)| {
+    (gparams(maxn), 0u8..10, 1u8..3).prop_map(|(p, pert, mode)| {
         let g = to_g(p, mode, 0);
         let mut c = build(&g);
         let n = c.x.len();
         let pos = (Hx::new().u(g.salt).u(40).finish() % (n as u64 - 1)) as usize;
         match pert {
+            // disorder that is tiny in absolute terms: the whole table scaled by 2^-70 / 2^-200 before an
+            // adjacent swap, or a single descent of exactly one ulp ("strictly increasing" has no tolerance)
+            6 | 7 => {
+                let f = if pert == 6 { 2f64.powi(-70) } else { 2f64.powi(-200) };
+                for v in c.x.iter_mut().chain(c.t.iter_mut()) {
+                    *v *= f;
+                }
+                c.x.swap(pos, pos + 1)
+            }
+            8 | 9 => {
+                let a = c.x[pos];
+                c.x[pos + 1] = if a == 0.0 { -f64::from_bits(1) } else if a > 0.0 { f64::from_bits(a.to_bits() - 1) } else { f64::from_bits(a.to_bits() + 1) };
+            }
             0 => c.x.swap(pos, pos + 1),
             1 => c.x.reverse(),
             2 => c.x.swap(n - 2, n - 1),
